@@ -51,6 +51,10 @@ type N struct {
 	// Notes lists what was done (for evidence).
 	Inlined map[string]int
 	budget  int
+	// extent of the function being normalised (positions inside are comparable; nodes inlined from
+	// other functions keep foreign positions) and, per assigned field, where it is assigned
+	lo, hi      token.Pos
+	fieldAssign map[types.Object][]token.Pos
 }
 
 func New(pk *packages.Package, opt Options) *N {
@@ -82,6 +86,7 @@ func (n *N) Body(fd *ast.FuncDecl) *ast.BlockStmt {
 // Block normalises a copy of a statement block (self: the function it belongs to, never inlined into itself).
 func (n *N) Block(b *ast.BlockStmt, self *types.Func) *ast.BlockStmt {
 	n.budget = 400
+	n.lo, n.hi = b.Pos(), b.End()
 	c := &cloner{n: n, from: n.Info}
 	body := c.node(b).(*ast.BlockStmt)
 	stack := map[*types.Func]bool{}
@@ -1005,6 +1010,7 @@ func retToLeaf(list []ast.Stmt, leaf func([]ast.Expr) []ast.Stmt, n *N) []ast.St
 
 func (n *N) assignCounts(list []ast.Stmt) map[types.Object]int {
 	cnt := map[types.Object]int{}
+	n.fieldAssign = map[types.Object][]token.Pos{}
 	mark := func(e ast.Expr) {
 		for {
 			switch y := e.(type) {
@@ -1021,6 +1027,7 @@ func (n *N) assignCounts(list []ast.Stmt) map[types.Object]int {
 				// x.f = …: the field object counts (whatever x is: aliases are not tracked)
 				if sel := n.Info.Selections[y]; sel != nil && sel.Kind() == types.FieldVal {
 					cnt[sel.Obj()]++
+					n.fieldAssign[sel.Obj()] = append(n.fieldAssign[sel.Obj()], y.Pos())
 				}
 			case *ast.IndexExpr:
 				e = y.X // x.f[i] = …: x.f changes as far as readers of it are concerned
@@ -1085,7 +1092,12 @@ func (n *N) objOf(e ast.Expr) types.Object {
 // pure: e reads only things that do not change while the function runs, as far
 // as the function itself is concerned: constants, parameters and locals assigned
 // once, fields and elements reached from them.
-func (n *N) pure(e ast.Expr, cnt map[types.Object]int) bool {
+func (n *N) pure(e ast.Expr, cnt map[types.Object]int) bool { return n.pureAt(e, cnt, token.NoPos) }
+
+// pureAt: as pure, for a definition at position at: a field the body assigns only BEFORE the
+// definition (in source order, inside the function itself and outside any loop — definitions in loops
+// are never propagated) still has the defined value at every later use.
+func (n *N) pureAt(e ast.Expr, cnt map[types.Object]int, at token.Pos) bool {
 	ok := true
 	ast.Inspect(e, func(m ast.Node) bool {
 		switch y := m.(type) {
@@ -1095,7 +1107,15 @@ func (n *N) pure(e ast.Expr, cnt map[types.Object]int) bool {
 			// a field the body itself assigns (p.off = …, p.off++) is not stable: i := p.off; p.off = i+1; use(i)
 			if sel := n.Info.Selections[y]; sel != nil && sel.Kind() == types.FieldVal {
 				if cnt[sel.Obj()] > 0 {
-					ok = false
+					stable := at.IsValid() && at >= n.lo && at < n.hi
+					for _, p := range n.fieldAssign[sel.Obj()] {
+						if !(p >= n.lo && p < n.hi && p < at) {
+							stable = false
+						}
+					}
+					if !stable || len(n.fieldAssign[sel.Obj()]) != cnt[sel.Obj()] {
+						ok = false
+					}
 				}
 			}
 		case *ast.CallExpr:
@@ -1157,7 +1177,7 @@ func (n *N) copyProp(list []ast.Stmt) []ast.Stmt {
 						if _, isTA := x.Rhs[0].(*ast.TypeAssertExpr); isTA && n.Opt.KeepTypeAssertLocals {
 							continue
 						}
-						if n.pure(x.Rhs[0], cnt) {
+						if n.pureAt(x.Rhs[0], cnt, x.Pos()) {
 							subst[o] = x.Rhs[0]
 							drop[s] = true
 						}
